@@ -5,7 +5,6 @@ package main
 import (
 	"fmt"
 	"go/constant"
-	"go/token"
 	"go/types"
 	"strings"
 )
@@ -64,18 +63,18 @@ func (w *World) parseType(pkg *types.Package, s string) (types.Type, error) {
 	if p == nil {
 		return nil, fmt.Errorf("package %s not loaded", pkg.Path())
 	}
-	pos := token.NoPos
-	best := -1
+	var tv types.TypeAndValue
+	var err error = fmt.Errorf("no syntax for package %s", pkg.Path())
 	for _, f := range p.Syntax {
-		if len(f.Imports) > best {
-			best = len(f.Imports)
-			pos = f.End() - 1
-			if len(f.Decls) > 0 {
-				pos = f.Decls[len(f.Decls)-1].End()
-			}
+		pos := f.End() - 1
+		if len(f.Decls) > 0 {
+			pos = f.Decls[len(f.Decls)-1].End()
+		}
+		tv, err = types.Eval(p.Fset, pkg, pos, s)
+		if err == nil {
+			break
 		}
 	}
-	tv, err := types.Eval(p.Fset, pkg, pos, s)
 	if err != nil {
 		return nil, err
 	}
@@ -392,6 +391,8 @@ func (e *Env) ident(name string) *Val {
 			return boolVal(e.tr.cur(e.st, compUUIDFailed))
 		case "$wgWaited":
 			return boolVal(e.tr.cur(e.st, compWgWaited))
+		case "$wgTokens":
+			return intVal(e.tr.cur(e.st, compWgTokens))
 		case "$fsState":
 			return &Val{T: nil, GhostElem: tInt, A: []string{e.tr.cur(e.st, compFsState)}}
 		case "$fsData":
@@ -593,6 +594,16 @@ func (e *Env) call(n ECall) *Val {
 	case "elemaddr":
 		s := arg(0)
 		return intVal(e.tr.at(s.A[0], s.A[1], arg(1).one()))
+	case "graphTo": // dependency names of a stage (upstream ExecutionGraph.To)
+		g, nm := arg(0).one(), arg(1).one()
+		ln := "(uf2 31 " + g + " " + nm + ")"
+		return &Val{T: types.NewSlice(types.Typ[types.String]), A: []string{"(uf2 30 " + g + " " + nm + ")", "0", ln, ln}}
+	case "graphNode": // stage registered under a name (upstream ExecutionGraph.Node)
+		t, err := e.tr.W.parseType(e.pkg, "*scheduler.Stage")
+		if err != nil {
+			e.fail("graphNode: %v", err)
+		}
+		return &Val{T: t, A: []string{"(uf2 32 " + arg(0).one() + " " + arg(1).one() + ")"}}
 	case "pathJoin":
 		d := arg(0).one()
 		p := "(uf2 23 " + d + " " + arg(1).one() + ")"
@@ -744,7 +755,7 @@ func (tr *FnCtx) unchangedHeap(st, old *State, except map[string]bool, allocOld 
 	}
 	var parts []string
 	for _, k := range sortedKeysS(tr.comps) {
-		if strings.HasPrefix(k, "L.") || strings.HasPrefix(k, "$seen") || k == "$alloc" || k == "$pub" || k == "$clock" || k == "$uuidFailed" {
+		if strings.HasPrefix(k, "L.") || strings.HasPrefix(k, "$seen") || k == "$alloc" || k == "$pub" || k == "$clock" || k == "$uuidFailed" || k == "$wgTokens" {
 			continue
 		}
 		if except != nil && except[k] {
@@ -794,6 +805,8 @@ func (tr *FnCtx) resolveComps(pat string, pkg *types.Package) []Comp {
 			return []Comp{compUUIDFailed}
 		case "$wgWaited":
 			return []Comp{compWgWaited}
+		case "$wgTokens":
+			return []Comp{compWgTokens}
 		case "$fsState":
 			return []Comp{compFsState}
 		case "$fsData":
@@ -843,6 +856,20 @@ func (tr *FnCtx) resolveComps(pat string, pkg *types.Package) []Comp {
 		}
 		path := strings.Join(parts[split:], ".")
 		var out []Comp
+		if tr.W.isOpaqueNamed(t) {
+			// struct of another module: its fields are components when accessed through pointers
+			st := t.Underlying().(*types.Struct)
+			for i := 0; i < st.NumFields(); i++ {
+				f := st.Field(i)
+				if path == "*" || f.Name() == path {
+					out = append(out, tr.W.fieldComps(t, f.Name(), f.Type())...)
+				}
+			}
+			if len(out) > 0 {
+				return out
+			}
+			continue
+		}
 		for _, a := range tr.W.flatten(t) {
 			if path == "*" || a.Path == path || strings.HasPrefix(a.Path, path+".") || strings.HasPrefix(a.Path, path+"#") {
 				out = append(out, Comp{"F." + tr.W.typeKey(t) + "." + a.Path, "(Array Int " + a.Sort + ")", false})
